@@ -58,13 +58,9 @@ impl RawBlock {
                                 TxLegacy {
                                     nonce: tx.nonce.into(),
                                     to: match tx.to {
-                                        Some(addr) => {
-                                            if addr.address.is_zero() {
-                                                TxKind::Create
-                                            } else {
-                                                TxKind::Call(addr.address.into())
-                                            }
-                                        }
+                                        // Creations are stored without a recipient, a stored zero
+                                        // address is a call to the zero address
+                                        Some(addr) => TxKind::Call(addr.address.into()),
                                         None => TxKind::Create,
                                     },
                                     value: U256::from(tx.value.uint),
